@@ -11,7 +11,7 @@ with `lean` directly on the framework's search path; the framework's own files a
   * harmless rewrites (renamed local, reordered independent assignments, comments / layout / keyword case ...): the
     theorems should survive; reported honestly (rewrites that are only harmless modulo algebra are listed as such).
 
-Usage: harness/tools/test_translate_f90.py [-j N] [--keep] [--only NAME]      exit status 0 iff every expectation is met
+Usage: harness/tools/test_translate_f90.py [-j N] [--keep] [--only NAME] [--match REGEX]      exit status 0 iff every expectation is met
 """
 import concurrent.futures
 import os
@@ -28,7 +28,8 @@ VERIF = os.path.dirname(HARNESS)
 LEAN = os.path.join(VERIF, "lean")
 REPO = os.environ.get("BEZIER_REPO", "/repo")
 PY = "/venv/bin/python" if os.path.exists("/venv/bin/python") else sys.executable
-FILES = ["helpers.f90", "curve_intersection.f90"]
+FILES = ["helpers.f90", "curve_intersection.f90", "curve.f90", "triangle.f90"]
+TABLES = ["SrcF90.lean", "SrcF90Kernels.lean"]
 
 
 def routine_span(text, name):
@@ -158,6 +159,112 @@ CASES = [
      [edit("helpers.f90", "is_separating",
            "       min_param1 = min(min_param1, param)\n       max_param1 = max(max_param1, param)\n",
            "       max_param1 = max(max_param1, param)\n       min_param1 = min(min_param1, param)\n")]),
+    # ------------------------------------------------------------------ numeric kernels (curve.f90)
+    ("vs_loop_bound", "mutation", "evaluate_curve_vs: `do i = 2, num_nodes - 1` -> `do i = 2, num_nodes` (loop bound off by one)",
+     [edit("curve.f90", "evaluate_curve_vs", "do i = 2, num_nodes - 1", "do i = 2, num_nodes")]),
+    ("vs_binomial", "mutation", "evaluate_curve_vs: binomial update `(num_nodes - i + 1)` -> `(num_nodes - i)`",
+     [edit("curve.f90", "evaluate_curve_vs", "binom_val * (num_nodes - i + 1)", "binom_val * (num_nodes - i)")]),
+    ("vs_swapped_lambda", "mutation", "evaluate_curve_vs: `lambda2_pow = lambda2_pow * lambda2` -> `* lambda1` (swapped lambda powers)",
+     [edit("curve.f90", "evaluate_curve_vs", "lambda2_pow = lambda2_pow * lambda2", "lambda2_pow = lambda2_pow * lambda1")]),
+    ("vs_running_update", "mutation", "evaluate_curve_vs: running value multiplied by `lambda2(j)` instead of `lambda1(j)`",
+     [edit("curve.f90", "evaluate_curve_vs", "nodes(:, i)) * lambda1(j)", "nodes(:, i)) * lambda2(j)")]),
+    ("vs_not_uniform", "mutation", "evaluate_curve_vs: `lambda1(j)` -> `lambda1(1)` inside the forall (the num_vals axis is no longer "
+     "uniform -> EXTRACT-PROBLEM)",
+     [edit("curve.f90", "evaluate_curve_vs", "nodes(:, i)) * lambda1(j)", "nodes(:, i)) * lambda1(1)")]),
+    ("dc_wrong_index", "mutation", "evaluate_curve_de_casteljau: `workspace(:, :, 2:(i+1))` -> `workspace(:, :, 1:i)`",
+     [edit("curve.f90", "evaluate_curve_de_casteljau", "workspace(:, :, 2:(i+1))", "workspace(:, :, 1:i)")]),
+    ("dc_loop_bound", "mutation", "evaluate_curve_de_casteljau: `do i = num_nodes - 2, 1, -1` -> `do i = num_nodes - 2, 2, -1`",
+     [edit("curve.f90", "evaluate_curve_de_casteljau", "do i = num_nodes - 2, 1, -1", "do i = num_nodes - 2, 2, -1")]),
+    ("bary_threshold", "mutation", "evaluate_curve_barycentric: `num_nodes > 55` -> `num_nodes > 54`",
+     [edit("curve.f90", "evaluate_curve_barycentric", "if (num_nodes > 55) then", "if (num_nodes > 54) then")]),
+    ("multi_one_less", "mutation", "evaluate_multi: `one_less = 1.0_dp - s_vals` -> `1.0_dp + s_vals`",
+     [edit("curve.f90", "evaluate_multi", "one_less = 1.0_dp - s_vals", "one_less = 1.0_dp + s_vals")]),
+    ("hodograph_difference", "mutation", "evaluate_hodograph: `nodes(:, 2:) - nodes(:, :num_nodes - 1)` with the operands swapped",
+     [edit("curve.f90", "evaluate_hodograph", "first_deriv = nodes(:, 2:) - nodes(:, :num_nodes - 1)",
+           "first_deriv = nodes(:, :num_nodes - 1) - nodes(:, 2:)")]),
+    ("hodograph_factor", "mutation", "evaluate_hodograph: `(num_nodes - 1) * hodograph` -> `num_nodes * hodograph`",
+     [edit("curve.f90", "evaluate_hodograph", "hodograph = (num_nodes - 1) * hodograph", "hodograph = num_nodes * hodograph")]),
+    ("elevate_weight", "mutation", "elevate_nodes: `(num_nodes - i) * nodes(:, i + 1)` -> `(num_nodes - i + 1) * ...`",
+     [edit("curve.f90", "elevate_nodes", "(num_nodes - i) * nodes(:, i + 1)", "(num_nodes - i + 1) * nodes(:, i + 1)")]),
+    ("elevate_index", "mutation", "elevate_nodes: `i * nodes(:, i)` -> `i * nodes(:, i + 1)` (wrong index)",
+     [edit("curve.f90", "elevate_nodes", "i * nodes(:, i) +", "i * nodes(:, i + 1) +")]),
+    ("elevate_forall_bound", "mutation", "elevate_nodes: `forall (i = 1:num_nodes - 1)` -> `forall (i = 1:num_nodes - 2)`",
+     [edit("curve.f90", "elevate_nodes", "forall (i = 1:num_nodes - 1)", "forall (i = 1:num_nodes - 2)")]),
+    ("subdivide_closed", "mutation", "subdivide_nodes (3 nodes): `nodes(:, 1) + 2 * nodes(:, 2) + nodes(:, 3)` -> `3 * nodes(:, 2)`",
+     [edit("curve.f90", "subdivide_nodes",
+           "    else if (num_nodes == 3) then\n       left_nodes(:, 1) = nodes(:, 1)\n       left_nodes(:, 2) = 0.5_dp * (nodes(:, 1) + nodes(:, 2))\n"
+           "       left_nodes(:, 3) = 0.25_dp * ( &\n            nodes(:, 1) + 2 * nodes(:, 2) + nodes(:, 3))",
+           "    else if (num_nodes == 3) then\n       left_nodes(:, 1) = nodes(:, 1)\n       left_nodes(:, 2) = 0.5_dp * (nodes(:, 1) + nodes(:, 2))\n"
+           "       left_nodes(:, 3) = 0.25_dp * ( &\n            nodes(:, 1) + 3 * nodes(:, 2) + nodes(:, 3))")]),
+    ("subdivide_pascal", "mutation", "subdivide_nodes_generic: `pascals_triangle(elt_index:1:-1)` -> `pascals_triangle(:elt_index)` (no reversal)",
+     [edit("curve.f90", "subdivide_nodes_generic", "pascals_triangle(:elt_index) + pascals_triangle(elt_index:1:-1))",
+           "pascals_triangle(:elt_index) + pascals_triangle(:elt_index))")]),
+    ("subdivide_inner_bound", "mutation", "subdivide_nodes_generic: `do pascal_index = 1, elt_index` -> `1, elt_index - 1`",
+     [edit("curve.f90", "subdivide_nodes_generic", "do pascal_index = 1, elt_index", "do pascal_index = 1, elt_index - 1")]),
+    ("subdivide_right_index", "mutation", "subdivide_nodes_generic: `nodes(:, num_nodes + 1 - pascal_index)` -> `nodes(:, pascal_index)`",
+     [edit("curve.f90", "subdivide_nodes_generic", "nodes(:, num_nodes + 1 - pascal_index))", "nodes(:, pascal_index))")]),
+    ("subdivide_dropped_copy", "mutation", "subdivide_nodes_generic: the final `right_nodes(:, 1) = left_nodes(:, num_nodes)` removed",
+     [edit("curve.f90", "subdivide_nodes_generic", "    right_nodes(:, 1) = left_nodes(:, num_nodes)\n", "")]),
+    ("specialize_quadratic", "mutation", "specialize_curve_quadratic: `(end_ + start - 2.0_dp * prod_both)` -> `(end_ - start - ...)`",
+     [edit("curve.f90", "specialize_curve_quadratic", "(end_ + start - 2.0_dp * prod_both)", "(end_ - start - 2.0_dp * prod_both)")]),
+    ("specialize_linear", "mutation", "specialize_curve (2 nodes): `(1.0_dp - end_) * nodes(:, 1)` -> `(1.0_dp - start) * nodes(:, 1)`",
+     [edit("curve.f90", "specialize_curve", "new_nodes(:, 2) = (1.0_dp - end_) * nodes(:, 1)", "new_nodes(:, 2) = (1.0_dp - start) * nodes(:, 1)")]),
+    ("newton_sign", "mutation", "newton_refine: `pt_delta = point - pt_delta` -> `pt_delta - point`",
+     [edit("curve.f90", "newton_refine", "pt_delta = point - pt_delta", "pt_delta = pt_delta - point")]),
+    ("curvature_degree", "mutation", "get_curvature: `concavity * (num_nodes - 1) * (num_nodes - 2)` -> `... * (num_nodes - 3)`",
+     [edit("curve.f90", "get_curvature", "concavity * (num_nodes - 1) * (num_nodes - 2)", "concavity * (num_nodes - 1) * (num_nodes - 3)")]),
+    ("curvature_difference", "mutation", "get_curvature: second difference `work(:, 2:) - work(:, :num_nodes - 2)` with operands swapped",
+     [edit("curve.f90", "get_curvature", "work(:, :num_nodes - 2) = work(:, 2:) - work(:, :num_nodes - 2)",
+           "work(:, :num_nodes - 2) = work(:, :num_nodes - 2) - work(:, 2:)")]),
+    ("kernel_renames", "harmless", "evaluate_curve_vs: `binom_val` -> `bv`, do variable `i` -> `k` in the main loop; elevate_nodes: forall index renamed",
+     [edit("curve.f90", "evaluate_curve_vs", "binom_val", "bv", 5),
+      edit("curve.f90", "evaluate_curve_vs", "    do i = 2, num_nodes - 1\n", "    do k = 2, num_nodes - 1\n"),
+      edit("curve.f90", "evaluate_curve_vs", "bv * (num_nodes - i + 1)) / (i - 1)", "bv * (num_nodes - k + 1)) / (k - 1)"),
+      edit("curve.f90", "evaluate_curve_vs", "lambda2_pow(j) * nodes(:, i)) * lambda1(j)", "lambda2_pow(j) * nodes(:, k)) * lambda1(j)"),
+      edit("curve.f90", "evaluate_curve_vs", "integer(c_int) :: i, j", "integer(c_int) :: i, j, k"),
+      edit("curve.f90", "elevate_nodes", "integer(c_int) :: i\n", "integer(c_int) :: idx\n"),
+      edit("curve.f90", "elevate_nodes", "forall (i = 1:num_nodes - 1)", "forall (idx = 1:num_nodes - 1)"),
+      edit("curve.f90", "elevate_nodes", "elevated(:, i + 1) = ( &\n            i * nodes(:, i) + (num_nodes - i) * nodes(:, i + 1)) / num_nodes",
+           "elevated(:, idx + 1) = ( &\n            idx * nodes(:, idx) + (num_nodes - idx) * nodes(:, idx + 1)) / num_nodes")]),
+    ("kernel_reorder", "harmless", "evaluate_curve_vs: `lambda2_pow = ...` / `binom_val = ...` swapped inside the loop; subdivide_nodes_generic: "
+     "the two zero-initialisations swapped",
+     [edit("curve.f90", "evaluate_curve_vs",
+           "       lambda2_pow = lambda2_pow * lambda2\n       binom_val = (binom_val * (num_nodes - i + 1)) / (i - 1)\n",
+           "       binom_val = (binom_val * (num_nodes - i + 1)) / (i - 1)\n       lambda2_pow = lambda2_pow * lambda2\n"),
+      edit("curve.f90", "subdivide_nodes_generic",
+           "       left_nodes(:, elt_index) = 0\n       right_nodes(:, num_nodes + 1 - elt_index) = 0\n",
+           "       right_nodes(:, num_nodes + 1 - elt_index) = 0\n       left_nodes(:, elt_index) = 0\n")]),
+    # ------------------------------------------------------------------ numeric kernels (triangle.f90)
+    ("tri_binomial", "mutation", "evaluate_barycentric_multi: binomial update `(binom_val * (k + 1)) / (degree - k)` -> `(k + 2)`",
+     [edit("triangle.f90", "evaluate_barycentric_multi", "binom_val = (binom_val * (k + 1)) / (degree - k)",
+           "binom_val = (binom_val * (k + 2)) / (degree - k)")]),
+    ("tri_index_update", "mutation", "evaluate_barycentric_multi: `new_index = index_ - degree + k` -> `index_ - degree + k + 1`",
+     [edit("triangle.f90", "evaluate_barycentric_multi", "new_index = index_ - degree + k  ! First", "new_index = index_ - degree + k + 1  ! First")]),
+    ("tri_loop_bound", "mutation", "evaluate_barycentric_multi: `do k = degree - 1, 0, -1` -> `do k = degree - 1, 1, -1`",
+     [edit("triangle.f90", "evaluate_barycentric_multi", "do k = degree - 1, 0, -1", "do k = degree - 1, 1, -1")]),
+    ("tri_swapped_lambda", "mutation", "evaluate_barycentric_multi: `param_vals(:, 1), param_vals(:, 2)` passed in the other order",
+     [edit("triangle.f90", "evaluate_barycentric_multi", "num_vals, param_vals(:, 1), param_vals(:, 2), row_result)",
+           "num_vals, param_vals(:, 2), param_vals(:, 1), row_result)")]),
+    ("tri_running_update", "mutation", "evaluate_barycentric_multi: `param_vals(new_index, 3) * evaluated` -> `param_vals(new_index, 2) * ...`",
+     [edit("triangle.f90", "evaluate_barycentric_multi", "param_vals(new_index, 3) * evaluated(:, new_index)",
+           "param_vals(new_index, 2) * evaluated(:, new_index)")]),
+    ("tri_cartesian", "mutation", "evaluate_cartesian_multi: `lambda1_vals = 1.0_dp - param_vals(:, 1) - param_vals(:, 2)` -> `+ param_vals(:, 2)`",
+     [edit("triangle.f90", "evaluate_cartesian_multi", "lambda1_vals = 1.0_dp - param_vals(:, 1) - param_vals(:, 2)",
+           "lambda1_vals = 1.0_dp - param_vals(:, 1) + param_vals(:, 2)")]),
+    ("dc3_parent_start", "mutation", "de_casteljau_one_round: `parent_i3 = degree + 2` -> `degree + 1`",
+     [edit("triangle.f90", "de_casteljau_one_round", "parent_i3 = degree + 2", "parent_i3 = degree + 1")]),
+    ("dc3_inner_bound", "mutation", "de_casteljau_one_round: `do j = 0, degree - k - 1` -> `do j = 0, degree - k`",
+     [edit("triangle.f90", "de_casteljau_one_round", "do j = 0, degree - k - 1", "do j = 0, degree - k")]),
+    ("dc3_wrong_parent", "mutation", "de_casteljau_one_round: `lambda2 * nodes(:, parent_i2)` -> `lambda2 * nodes(:, parent_i1)`",
+     [edit("triangle.f90", "de_casteljau_one_round", "lambda2 * nodes(:, parent_i2)", "lambda2 * nodes(:, parent_i1)")]),
+    ("dc3_row_step", "mutation", "de_casteljau_one_round: the `parent_i2 = parent_i2 + 1` after the inner loop removed",
+     [edit("triangle.f90", "de_casteljau_one_round",
+           "       parent_i1 = parent_i1 + 1\n       parent_i2 = parent_i2 + 1\n    end do\n\n  end subroutine",
+           "       parent_i1 = parent_i1 + 1\n    end do\n\n  end subroutine")]),
+    ("tri_renames", "harmless", "evaluate_barycentric_multi: `row_result` -> `rr`; de_casteljau_one_round: inner do variable `j` -> `jj`",
+     [edit("triangle.f90", "evaluate_barycentric_multi", "row_result", "rr", 3),
+      edit("triangle.f90", "de_casteljau_one_round", "integer(c_int) :: k, j\n", "integer(c_int) :: k, jj\n"),
+      edit("triangle.f90", "de_casteljau_one_round", "do j = 0, degree - k - 1", "do jj = 0, degree - k - 1")]),
     # ------------------------------------------------------------------ harmless only modulo algebra / garbage
     ("decl_order", "caveat", "is_separating: declaration `min_param1, max_param1` written `max_param1, min_param1` (the loop state "
      "lists the carried variables in declaration order: the tuple is permuted, the proof names the components)",
@@ -234,30 +341,37 @@ def run_case(case, base, lpath, tables_src):
     env2 = dict(os.environ, LEAN_PATH=out + ":" + lpath)
     r1 = subprocess.run(["lean", "-o", os.path.join(out, "SrcF90Mut.olean"), gen], env=env2, cwd=work,
                         stdout=subprocess.PIPE, stderr=subprocess.STDOUT, text=True)
-    thms = theorem_lines(tables_src)
+    all_thms = []
+    for t in TABLES:
+        all_thms += [n for n, _ in theorem_lines(os.path.join(tables_src, t))]
     if r1.returncode != 0:
-        res["broken"] = [n for n, _ in thms]
+        res["broken"] = all_thms
         res["note"] = "generated file does not compile: " + " | ".join(re.findall(r"error: (.*)", r1.stdout)[:2])[:300]
         res["secs"] = time.time() - t0
         return res
-    tab = os.path.join(work, "TablesSrcF90.lean")
-    with open(tables_src) as fh:
-        text = fh.read()
-    if "import BezierVerif.Generated.SrcF90\n" not in text:
-        res["note"] = "Tables/SrcF90.lean does not import BezierVerif.Generated.SrcF90"
-        return res
-    with open(tab, "w") as fh:
-        fh.write(text.replace("import BezierVerif.Generated.SrcF90\n", "import SrcF90Mut\n"))
-    r2 = subprocess.run(["lean", tab], env=env2, cwd=work, stdout=subprocess.PIPE, stderr=subprocess.STDOUT, text=True)
     broken = []
-    for m in re.finditer(r"^(\S+?):(\d+):(\d+): error", r2.stdout, re.M):
-        ln = int(m.group(2))
-        cands = [n for n, l in thms if l <= ln]
-        nm = cands[-1] if cands else "<before the first theorem>"
-        if nm not in broken:
-            broken.append(nm)
-    if r2.returncode != 0 and not broken:
-        broken = ["<lean failed: %s>" % r2.stdout[-200:]]
+    for t in TABLES:
+        path = os.path.join(tables_src, t)
+        thms = theorem_lines(path)
+        tab = os.path.join(work, "Tables" + t)
+        with open(path) as fh:
+            text = fh.read()
+        if "import BezierVerif.Generated.SrcF90\n" not in text:
+            res["note"] = "Tables/%s does not import BezierVerif.Generated.SrcF90" % t
+            return res
+        with open(tab, "w") as fh:
+            fh.write(text.replace("import BezierVerif.Generated.SrcF90\n", "import SrcF90Mut\n"))
+        r2 = subprocess.run(["lean", tab], env=env2, cwd=work, stdout=subprocess.PIPE, stderr=subprocess.STDOUT, text=True)
+        found = False
+        for m in re.finditer(r"^(\S+?):(\d+):(\d+): error", r2.stdout, re.M):
+            ln = int(m.group(2))
+            cands = [n for n, l in thms if l <= ln]
+            nm = cands[-1] if cands else "<before the first theorem of %s>" % t
+            found = True
+            if nm not in broken:
+                broken.append(nm)
+        if r2.returncode != 0 and not found:
+            broken.append("<lean failed on %s: %s>" % (t, r2.stdout[-200:]))
     res["broken"] = broken
     res["secs"] = time.time() - t0
     return res
@@ -267,6 +381,7 @@ def main(argv):
     jobs = 4
     keep = False
     only = None
+    match = None
     i = 0
     while i < len(argv):
         if argv[i] == "-j":
@@ -275,16 +390,20 @@ def main(argv):
             keep = True; i += 1
         elif argv[i] == "--only":
             only = argv[i + 1]; i += 2
+        elif argv[i] == "--match":
+            match = argv[i + 1]; i += 2
         else:
             print(__doc__)
             return 2
     t0 = time.time()
     base = tempfile.mkdtemp(prefix="srcf90-selftest-")
     lpath = lean_path()
-    tables = os.path.join(LEAN, "BezierVerif", "Tables", "SrcF90.lean")
+    tables = os.path.join(LEAN, "BezierVerif", "Tables")
     cases = [("baseline", "harmless", "unmodified copy of the sources", [])] + CASES
     if only:
         cases = [c for c in cases if c[0] == only]
+    if match:
+        cases = [c for c in cases if re.search(match, c[0])]
     with concurrent.futures.ThreadPoolExecutor(max_workers=jobs) as ex:
         results = list(ex.map(lambda c: run_case(c, base, lpath, tables), cases))
     ok = True
